@@ -842,8 +842,11 @@ class RoundTrip(CodecJob):
                         yield {"L": L, "cuts": [cut], "methods": METHOD_SETS[ms], "limits": lim}
 
     def bounds(self):
-        return ("decode(encode(x)) == x through the real EncoderState and DecoderState MIR for EVERY byte string x of length L (quick 0..5, thorough 0..7), encoder input cut in two pieces "
-                "(copy / borrow), the encoded stream handed to the decoder cut at EVERY position (decode_copy / decode_borrow), tiny limits and production limits")
+        if self.tier == "quick":
+            return ("decode(encode(x)) == x through the real EncoderState and DecoderState MIR for EVERY byte string x of length 0..5, encoder input cut at 0 / middle / end (copy then borrow), "
+                    "the encoded stream handed to the decoder cut at 0 / middle / end (decode_borrow then decode_copy), limits (2,3), (1,2) and production")
+        return ("decode(encode(x)) == x through the real EncoderState and DecoderState MIR for EVERY byte string x of length 0..7, encoder input cut at every position (copy/borrow and borrow/copy), "
+                "the encoded stream handed to the decoder cut at EVERY position (decode_borrow then decode_copy), limits (2,3), (1,2), (1,1), (3,5) and production")
 
     def check(self, mod, cfg, q):
         L, cuts, methods, lim = cfg["L"], cfg["cuts"], cfg["methods"], cfg["limits"]
